@@ -336,6 +336,19 @@ func (p *Packer) packWalkFn(root, src, dst string, tarW *tar.Writer, meta *Meta,
 // encounter a symbolic link chain. It returns path information about the final
 // target pointing to a regular file or directory.
 func (p *Packer) resolveExternalLink(root string, path string) (*externalSymlink, error) {
+	return p.followExternalLink(root, path, maxExternalLinkHops)
+}
+
+// maxExternalLinkHops bounds the length of a chain of symlinks that is
+// followed when dereferencing, so that a cycle of links is reported as an
+// error instead of recursing without end.
+const maxExternalLinkHops = 255
+
+func (p *Packer) followExternalLink(root string, path string, hops int) (*externalSymlink, error) {
+	if hops <= 0 {
+		return nil, fmt.Errorf("too many levels of symbolic links resolving %q", path)
+	}
+
 	// Read the symlink file to find the destination.
 	target, err := os.Readlink(path)
 	if err != nil {
@@ -359,7 +372,7 @@ func (p *Packer) resolveExternalLink(root string, path string) (*externalSymlink
 
 	// Recurse if the symlink resolves to another symlink
 	if info.Mode()&os.ModeSymlink != 0 {
-		return p.resolveExternalLink(root, absTarget)
+		return p.followExternalLink(root, absTarget, hops-1)
 	}
 
 	return &externalSymlink{
